@@ -246,7 +246,10 @@ Definition ptables := list (string * ptable).
      if preset in COUNT: ... elif preset == THR_PRESET and atnum > THR: ... else: ...            *)
 Record pcfg := PCfg { count_presets : list string; thr_preset : string; thr : Z;
                       size_presets : list string;      (* the list in _get_rgrid_size *)
-                      size_special : string }.         (* the preset that reads "r_points" there *)
+                      size_special : string;           (* the preset that reads "r_points" there *)
+                      conv_method : option method }.   (* `method=` handed to convert_angular_sizes_to_degrees in the
+                                                          sector-radius route: None = the caller's method *)
+Definition conv (cfg : pcfg) (m : method) : method := match conv_method cfg with Some m' => m' | None => m end.
 
 Fixpoint lookup_str {A} (k : string) (l : list (string * A)) : option A :=
   match l with [] => None | (k', v) :: t => if String.eqb k k' then Some v else lookup_str k t end.
@@ -280,7 +283,7 @@ Definition rad_as_T (r : radcol) : list T := match r with RadF l => l | RadI l =
 Definition preset_spec (cfg : pcfg) (m : method) (row : prow) (preset : string) (atnum : Z) (rpts : list T)
   : option degspec :=
   if count_branch cfg preset atnum then option_map Sizes (sector_sizes row)
-  else match convert m (pr_npt row) with
+  else match convert (conv cfg m) (pr_npt row) with
        | None => None
        | Some degs => option_map Degrees (find_degrees rpts (rad_as_T (pr_rad row)) degs)
        end.
@@ -313,6 +316,13 @@ Definition get_rgrid_size (cfg : pcfg) (tabs : ptables) (preset : string) (atnum
 (* ---- the decidable build condition of one tabulated (preset, atnum) *)
 Definition resolvableb (m : method) (sizes : list Z) : bool :=
   forallb (fun s => match resolve_size m s with Some _ => true | None => false end) (zdedupe sizes).
+(* sector-radius route: the tabulated size s is converted to a degree with method conv(m) and that degree is realised
+   with method m; the shell must not be coarser than s *)
+Definition size_okb (cfg : pcfg) (m : method) (s : Z) : bool :=
+  match resolve_size (conv cfg m) s with
+  | Some (d, _) => match resolve_degree m d with Some (_, s') => (s <=? s')%Z | None => false end
+  | None => false
+  end.
 Definition preset_okb (cfg : pcfg) (tabs : ptables) (m : method) (preset : string) (atnum : Z) (row : prow) : bool :=
   if count_branch cfg preset atnum then
     match sector_sizes row with
@@ -323,7 +333,8 @@ Definition preset_okb (cfg : pcfg) (tabs : ptables) (m : method) (preset : strin
                  | None => false
                  end
     end
-  else Nat.eqb (length (pr_npt row)) (S (length (rad_as_T (pr_rad row)))) && resolvableb m (pr_npt row).
+  else Nat.eqb (length (pr_npt row)) (S (length (rad_as_T (pr_rad row)))) &&
+       forallb (size_okb cfg m) (zdedupe (pr_npt row)).
 
 (* the size the table asks for at shell k of a radial grid *)
 Definition tabulated_size (cfg : pcfg) (row : prow) (preset : string) (atnum : Z) (rpts : list T) (k : nat) : Z :=
